@@ -64,6 +64,7 @@ type hookSink struct {
 	rules    []*steerRule
 	extra    func() int64 // other progress sources (simulated cluster, application)
 	onEvent  func(ev *hookEv)
+	anyEvent func(ev *hookEv) // called outside the lock for every event except cl.applied; may park
 	dead     int32
 	counts   map[string]int
 }
@@ -190,6 +191,9 @@ func (s *hookSink) handle(point string, args []interface{}) {
 	atomic.AddInt64(&s.progress, 1)
 	if point == "cl.applied" {
 		return // inside the client's write lock: record only, never park
+	}
+	if s.anyEvent != nil {
+		s.anyEvent(&ev)
 	}
 	for _, r := range rules {
 		if r.Point != point || (r.Match != nil && !r.Match(&ev)) {
